@@ -147,6 +147,10 @@ def linkCells (h : Heap) : List Nat → Heap
   | [a] => setCdr h a .nil
   | a :: b :: ks => linkCells (setCdr h a (.cell b)) (b :: ks)
 
+/-- the cells of `as` whose element `delete` keeps -/
+def keptCells (p : Pred) (h : Heap) (as : List Nat) : List Nat :=
+  as.filter (fun a => match h[a]? with | some c => !p.test c.car | none => false)
+
 /-- a list operation with its arguments resolved to references -/
 inductive Op where
   | lit (vs : List Val)
@@ -210,7 +214,7 @@ def run (h : Heap) : Op → Except Err (Heap × Ref)
   | .lit vs => .ok (allocList h vs .nil)
   | .alias x => .ok (h, x)
   | .cons v x => .ok (h ++ [⟨v, x⟩], .cell h.length)
-  | .listStar v w x => .ok (h ++ [⟨v, .cell (h.length + 1)⟩, ⟨w, x⟩], .cell h.length)
+  | .listStar v w x => .ok (allocList h [v, w] x)
   | .append x y => do
       let as ← chainOf h x
       let _ ← chainOf h y
@@ -280,7 +284,7 @@ def run (h : Heap) : Op → Except Err (Heap × Ref)
       .ok (writeCars h as (vSort (carsOf h as)), x)
   | .delete p x => do
       let as ← chainOf h x
-      let ks := as.filter (fun a => match h[a]? with | some c => !p.test c.car | none => false)
+      let ks := keptCells p h as
       .ok (linkCells h ks, refOf ks)
 
 /-- the cells a destructive operation may write: everything reachable from its list arguments.
